@@ -696,6 +696,31 @@ def close_partials(trees: Dict[str, ast.Module], known: Optional[set] = None) ->
                                 stores[name] = 1
                                 done += 1
                                 touched.add(mod)
+                        # a lambda that only forwards to an unpinned method (lambda h: self._excess_at_height(h, method)) is the nested
+                        # function `def m_bound(h): return self._excess_at_height(h, method)`; the helper inliner then expands the call
+                        if not isinstance(s_, (ast.FunctionDef, ast.ClassDef, ast.For, ast.While, ast.If, ast.With, ast.Try)):
+                            for lam in [x for x in ast.walk(s_) if isinstance(x, ast.Lambda)]:
+                                b_ = lam.body
+                                if not (isinstance(b_, ast.Call) and isinstance(b_.func, ast.Attribute) and isinstance(b_.func.value, ast.Name) and b_.func.value.id == "self" and b_.func.attr in methods):
+                                    continue
+                                m = methods[b_.func.attr]
+                                if f"{mod}.{cls.name}.{m.name}" in known or m is f or lam.args.vararg or lam.args.kwarg or lam.args.defaults or lam.args.kw_defaults:
+                                    continue
+                                name = f"{m.name.lstrip('_')}_bound"
+                                if name in stores or any(isinstance(x, ast.Name) and x.id == name for x in ast.walk(f)):
+                                    continue
+                                fd = ast.FunctionDef(name=name, args=copy.deepcopy(lam.args), body=[ast.Return(value=copy.deepcopy(b_))], decorator_list=[], returns=None, type_params=[])
+                                pre.append(fd)
+
+                                class RL(ast.NodeTransformer):
+                                    def visit_Lambda(self, n):
+                                        if n is lam:
+                                            return ast.Name(id=name, ctx=ast.Load())
+                                        return self.generic_visit(n)
+                                s_ = RL().visit(s_)
+                                stores[name] = 1
+                                done += 1
+                                touched.add(mod)
                         if pre:
                             _relocate(pre, s_)
                             for x in pre + [s_]:
